@@ -4,7 +4,6 @@
 From V.model Require Import Base Deb822Lex Deb822Parse Grammar Lossy LossySpec Deb822Edit LiveDoc Deb822Wrap WrapSpec.
 From V.proofs Require Import BaseP GrammarLexP GrammarParseP GrammarAccP LiveDocP LiveParaP.
 From Coq Require Import Permutation.
-Set Default Timeout 60.
 
 (* ---------------------------------------------------------------- res_map *)
 Lemma res_map_ok {A B} (f : A -> res B) (g : A -> B) l :
